@@ -8,7 +8,7 @@ open Mfi Mfi.Bank Mfi.Ix
 /-- `ix.<dep|wd|bor|rep> <bank 16> <last_update> <ir 23> <has position> <position 6> now amount flag tfBps tfMax origFee progFeeRate`
      →  `ok <bank 16> <last_update> <has position> <position 6> <tokens>` -/
 def ixOp (op : String) (a : List Int) : Option String :=
-  if !op.startsWith "ix." || op == "ix.liq" then none else
+  if !op.startsWith "ix." || op == "ix.liq" || op == "ix.bkr" then none else
   match parseBank a with
   | none => some "bad-args"
   | some (b0, last :: rest) =>
@@ -25,6 +25,7 @@ def ixOp (op : String) (a : List Int) : Option String :=
           | "ix.wd" => some (withdraw e b bal amount (s2b flag))
           | "ix.bor" => some (borrow e b bal amount)
           | "ix.rep" => some (repay e b bal amount (s2b flag))
+          | "ix.close" => some (Ix.closeBalance e b bal)
           | _ => none
         match r with
         | none => some "bad-op"
@@ -62,5 +63,20 @@ def liqIxOp (op : String) (a : List Int) : Option String :=
         s!"{showBank o.assetBank} {o.assetBank.lastUpdate} {showBank o.liabBank} {o.liabBank.lastUpdate} {showBal o.lqLiab} {showBal o.leAsset} {showBal o.lqAsset} {showBal o.leLiab} {o.insuranceTokens}"))
     | _ => none
   some (r.getD "bad-args")
+
+/-- `ix.bkr <bank 16> <last_update> <ir 23> <position 6> available now` → `ok <bank 16> <last_update> <position 6> <tokens from insurance> <kill>` -/
+def bkrIxOp (op : String) (a : List Int) : Option String :=
+  if op != "ix.bkr" then none else
+  match parseBank a with
+  | some (b0, last :: rest) =>
+    match parseIr rest with
+    | some (ir, rest2) =>
+      match parseBal rest2 with
+      | some (x, [avail, now]) =>
+        some (showResB ((Ix.bankruptcy ir now { b0 with lastUpdate := last } x avail).map fun o =>
+          s!"{showBank o.bank} {o.bank.lastUpdate} {showBal o.bal} {o.coveredUp} {if o.kill then 1 else 0}"))
+      | _ => some "bad-args"
+    | none => some "bad-args"
+  | _ => some "bad-args"
 
 end Mfi.Driver
